@@ -173,6 +173,24 @@ try:
             one = (ns, axes, arr.shape) if one is None else one
             good = good and ns == 1 and arr.ndim == 2 and np.array_equal(arr, frames[0])
     check("tifffile.TiffWriter, contiguous pages with axes 'ZXY': Z >= 2 pages are ONE series (Z, X, Y) 'ZXY' holding the frames in order", good)
+    # the writer as docs/w3/c20_save_tif_fix.diff makes it: ONE frame goes out as the block frame[np.newaxis]; two or more frames page by page
+    good = True
+    for zz, (x, y) in itertools.product((1, 2, 3), [(3, 4), (1, 1), (5, 1), (1, 6)]):
+        frames = [((np.arange(x * y) + 7 * k) % 251).astype(np.uint8).reshape(x, y) for k in range(zz)]
+        blocks = [frames[0][np.newaxis]] if zz == 1 else frames
+        f = os.path.join(base, "q.tif")
+        with tifffile.TiffWriter(f) as tif:
+            for b in blocks:
+                tif.write(b, contiguous=True, photometric="minisblack", resolution=(1, 1), metadata={"unit": "um", "axes": "ZXY"})
+        with tifffile.TiffFile(f) as tf:
+            ns, s = len(tf.series), tf.series[0]
+            arr, axes = s.asarray(), s.axes
+        good = good and ns == 1 and axes == "ZXY" and arr.shape == (zz, x, y) and all(np.array_equal(arr[k], frames[k]) for k in range(zz))
+        from swcgeom.images.io import read_imgs
+
+        back = np.asarray(read_imgs(f, dtype=np.uint8).get_full())
+        good = good and back.shape == (x, y, zz, 1) and all(np.array_equal(back[:, :, k, 0], frames[k]) for k in range(zz))
+    check("tifffile.TiffWriter: ONE (1, X, Y) block, or Z = 2, 3 pages (X, Y), with axes 'ZXY' -> ONE series (Z, X, Y) 'ZXY' = the frames; read_imgs gives (X, Y, Z, 1) (12 cases, Z = 1, 2, 3)", good)
     print(f"     note: ONE page is a 2-D series {one} - the axes string is dropped (finding: a one-slice raster file cannot be read back)")
     good = True
     for shp, dt in [((2, 3, 5), "uint8"), ((2, 3, 5, 3), "uint16"), ((1, 1, 1), "float32"), ((4, 1, 2, 1), "float32")]:
@@ -254,6 +272,49 @@ for deco in (functools.cache, functools.lru_cache(maxsize=2), functools.lru_cach
     g = deco(probe)
     good = good and all(g(x) == probe(x) for x in (1, 2, 3, 1, 2, 3, 1))
 check("functools.cache / lru_cache(maxsize) / lru_cache: the decorated function returns what the function returns (model: MemoFn runs the body)", good)
+
+# ------------------------------------------------------------------------------------------------ E. itertools.islice / chain on a one-shot iterator, frame[np.newaxis]
+from pyvc.models import BUILTIN_MODELS, as_sequence
+from pyvc.values import Iter, Opaque
+
+E.spec_mode = 0
+good = True
+for c in range(0, 6):
+    for stop in (0, 1, 2, 3):
+        # concrete iterator
+        it = Iter(PList(list(range(10, 10 + c))))
+        head = BUILTIN_MODELS[list](E, [X._islice(E, [it, stop], {})], {})
+        py_it = iter(range(10, 10 + c))
+        py_head = list(itertools.islice(py_it, stop))
+        chained = X._chain(BUILTIN_MODELS[itertools.chain])(E, [head, it], {})
+        got = list(chained.seq.items) if isinstance(chained, Iter) else None
+        good = good and head.items == py_head and got == list(itertools.chain(py_head, py_it))
+        # iterator over a list of SYMBOLIC length n, with n pinned to c (the model forks on n > 0, n > 1, ...; the pinned value decides every fork)
+        E.pc, E.trace, E.pos, E.worklist = [], [], 0, []
+        p = PList.fresh("ref", name="fr")
+        p.proto = X.FRAME_PROTO
+        E.assume(zint_ := (p.n == c))
+        it = Iter(p)
+        head = BUILTIN_MODELS[list](E, [X._islice(E, [it, stop], {})], {})
+        want_head = min(stop, c)
+        good = good and len(head.items) == want_head and all(z3.simplify(h.z).eq(z3.simplify(z3.Select(p.cols[0], j))) for j, h in enumerate(head.items))
+        n_left, g_left = as_sequence(E, it)
+        n_left = n_left if isinstance(n_left, int) else z3.simplify(z3.substitute(n_left, (p.n, z3.IntVal(c)))).as_long()
+        good = good and n_left == c - want_head
+        ch = X._chain(BUILTIN_MODELS[itertools.chain])(E, [head, it], {})
+        n_all, g_all = ch.__pyvc_sequence__(E)
+        n_all = n_all if isinstance(n_all, int) else z3.simplify(z3.substitute(n_all, (p.n, z3.IntVal(c)))).as_long()
+        good = good and n_all == c
+        for k in range(c):  # entry k of chain(head, rest) is entry k of the original list
+            v = g_all(Sym(z3.IntVal(k), "int"))
+            good = good and z3.simplify(z3.substitute(v.z, (p.n, z3.IntVal(c)))).eq(z3.simplify(z3.Select(p.cols[0], k)))
+E.pc = []
+check("itertools.islice(iterator, stop) + list + itertools.chain(head, iterator): concrete iterators and iterators over symbolic-length lists with the length pinned to 0..5, stop 0..3 (48 cases)", good)
+fr = Opaque(z3.Int("some_frame"), X.FRAME_PROTO)
+nb = X._frame_getitem(E, fr, [None], {})
+a = np.arange(12).reshape(3, 4)
+check("frame[np.newaxis]: np.newaxis is None; numpy gives shape (1, X, Y) with block[0] = frame (model: ghost function frame_with_leading_axis of the frame)",
+      np.newaxis is None and a[np.newaxis].shape == (1, 3, 4) and np.array_equal(a[np.newaxis][0], a) and nb.z.eq(X.FRAME_NEWAXIS0(fr.z)))
 
 print("ALL OK" if ok else "SOME MODEL DISAGREES")
 sys.exit(0 if ok else 1)
